@@ -12,6 +12,10 @@ variable {Loc σ : Type} [DecidableEq Loc]
 def Respects (T : Nat → Thread Loc σ) (R W : Nat → Loc → Prop) : Prop :=
   ∀ i s a, (T i).next s = some a → (∀ l ∈ a.rd, R i l) ∧ (∀ l ∈ a.wr, W i l)
 
+/-- the same, but only for the actions enabled in one configuration (footprints may depend on the state reached) -/
+def RespectsAt (T : Nat → Thread Loc σ) (R W : Nat → Loc → Prop) (c : Cfg Loc σ) : Prop :=
+  ∀ i a, (T i).next (c.loc i) = some a → (∀ l ∈ a.rd, R i l) ∧ (∀ l ∈ a.wr, W i l)
+
 /-- no thread writes what another thread reads or writes -/
 def DisjointFootprints (R W : Nat → Loc → Prop) : Prop :=
   ∀ i j, i ≠ j → ∀ l, W i l → ¬ R j l ∧ ¬ W j l
